@@ -39,6 +39,9 @@ type dawgIn struct {
 	Searches [][]searchIn `json:"searches"`
 	Gob      bool         `json:"gob"`
 	Life     []lifeOp     `json:"life,omitempty"` // when present: a Builder life cycle (DawgLife.tla) instead of Adds
+	// Prior: when present, the Builder first builds (and finishes) this set and is then re-initialised (Initialise); the logged lifetime
+	// (Adds ... Finish) starts after that and must be the lifetime of a fresh Builder (DawgLife.tla: Initialise = fresh)
+	Prior [][]int `json:"prior,omitempty"`
 }
 
 // lifeOp is one call on a Builder: "add" (W), "finish", "init" (Initialise).
@@ -144,6 +147,9 @@ func (in dawgIn) key(prop string) string {
 	if in.NilEmpty {
 		s += "+nilEmpty"
 	}
+	if len(in.Prior) > 0 {
+		s += "+after(" + wordsKey(in.Prior) + ")"
+	}
 	return s
 }
 
@@ -177,6 +183,15 @@ func mkWord(w []int, nilEmpty bool) []byte {
 // buildDawg runs the Add calls on a real Builder; logs them if w != nil. Returns the finished dawg.
 func buildDawg(w *tr.W, in dawgIn) (d *dawg.Dawg, ok bool) {
 	var b dawg.Builder
+	if len(in.Prior) > 0 {
+		obs.Safe(func() {
+			for _, wd := range in.Prior {
+				b.Add(i2b(wd))
+			}
+			b.Finish()
+			b.Initialise()
+		})
+	}
 	for _, wd := range in.Adds {
 		var err error
 		res := obs.Safe(func() { err = b.Add(mkWord(wd, in.NilEmpty)) })
@@ -511,6 +526,23 @@ func dawgFamilies(c *Ctx, prop string) []dawgIn {
 		}
 		ws = sortWords(ws)
 		add(dawgIn{Name: "presuf", Adds: ws, Probes: memberProbes(r, ws, 20), Table: true, Gob: true})
+	}
+	// a Builder that built another set before (Finish, Initialise): nothing of the first build may show in the second automaton, its
+	// node numbering included (the serialisation identifies nodes by their ids)
+	{
+		nre := 40
+		if big {
+			nre = 400
+		}
+		al := []int{97, 98, 99, 100, 105, 116, 117}
+		for k := 0; k < nre; k++ {
+			a := al[:2+r.Intn(len(al)-1)]
+			prior := sortWords(randomSet(r, a, 1+r.Intn(4), 1+r.Intn(6)))
+			ws := sortWords(randomSet(r, a, 1+r.Intn(4), 1+r.Intn(8)))
+			add(dawgIn{Name: "reused-builder", Prior: prior, Adds: ws, Probes: memberProbes(r, ws, 12), Table: true, Gob: true})
+		}
+		add(dawgIn{Name: "reused-builder", Prior: [][]int{{99, 97, 116}, {99, 117, 116}}, Adds: sortWords([][]int{{97, 116}, {98, 105, 116}, {98, 117, 100}, {98, 117, 116}}),
+			Probes: [][]int{{97, 116}, {98, 117, 116}, {99, 97, 116}}, Table: true, Gob: true})
 	}
 	// wide nodes: a node with k children (C14: the child count crosses the 1-byte varint boundary)
 	for _, k := range []int{1, 2, 127, 128, 129, 200, 255, 256} {
